@@ -62,6 +62,10 @@ HOSTILE = {
     'mimetype': ['text/html', 'x', '5'],
     # header lines longer than one read-ahead block
     'x-pad': ['y' * 100, 'y' * 250],
+    # unknown options whose names end like a known one
+    'x-orig-length': ['99999999', '5', '0'],
+    'content-length': ['123456789'],
+    'x-encoding': ['utf-16', 'nope'],
 }
 HOSTILE_KEYS = ['files', 'changes', 'options', 'meta', 'preamble', 'diff',
                 '_level', 'section_id', 'subsections', 'content', 'add_file',
